@@ -134,11 +134,6 @@ Proof.
   - apply cp_mem_false. exact M.
 Qed.
 
-Ltac cp_andb H :=
-  repeat match type of H with
-         | (_ && _ = true) => let H1 := fresh H in apply andb_prop in H; destruct H as [H H1]
-         end.
-
 Theorem cp_static_of_wf : forall a, cp_wf a = true -> cp_static a.
 Proof.
   intros a W. destruct (cp_wf_ok a W) as (_ & _ & _ & [ND Hun]).
